@@ -228,6 +228,12 @@ def replay_differs(impl_fn, oracle_fn, truthy=False):
     return True, f"expected {show_outcome(o)}; observed {show_outcome(i)}"
 
 
+def _raise_if_exc(x):
+    if isinstance(x, BaseException):
+        raise x
+    return x
+
+
 def env_text(cenv):
     parts = []
     for k, v in sorted(cenv.items()):
